@@ -224,6 +224,11 @@ func isScalarElem(t types.Type) bool {
 }
 
 // FloatV is an opaque float (no arithmetic is modelled).
+// FloatSym: a float64 obtained from a symbolic integer; bits is its IEEE-754 pattern.
+type FloatSym struct {
+	bits *Term
+}
+
 type FloatV struct {
 	v float64
 }
